@@ -14,6 +14,8 @@ import Driver.ElfOps
 import Driver.ParseOps
 import Driver.StartupOps
 import Driver.ListingOps
+import Driver.NumParseOps
+import Driver.MemViewOps
 /-
 Registry of all operation handlers of the model driver.  One line per component.
 -/
@@ -35,6 +37,8 @@ def allHandlers : List (String × Handler) :=
   elfHandlers ++
   parseHandlers ++
   startupHandlers ++
-  listingHandlers
+  listingHandlers ++
+  numParseHandlers ++
+  memViewHandlers
 
 end Driver
